@@ -159,3 +159,27 @@ def opaque(tag, *args):
 def ghost_call(tag, *args):
     """native stand-in of the verifier's ghost_call(): no effect"""
     return None
+
+
+# ---- search combinators (native definitions; the verifier evaluates them over opaque sequences)
+def first_index(pred, xs):
+    for i, x in enumerate(xs):
+        if pred(x):
+            return i
+    return None
+
+
+def seq_at(xs, i):
+    return xs[i]
+
+
+def seq_remove_at(xs, i):
+    r = list(xs)
+    del r[i]
+    return r
+
+
+def seq_replace_at(xs, i, v):
+    r = list(xs)
+    r[i] = v
+    return r
